@@ -37,6 +37,9 @@ pub const CLASS_VALUES: &[&str] = &[
     "language-y x", " language-z ", "language-\u{a0}x", "LANGUAGE-x", "language-*", "", "a\tb\nc",
     "language-é", "x", "x y z", "language-a\u{c}language-b", "language-a\u{2003}x", "hljs language-js hljs",
     "  ", "language-a  language-b", "mx-a", "*",
+    // two or more kept classes around a removed one: the rewritten value is a join of several
+    "language-a x language-b", "x language-a language-b y", "language-a\tx\nlanguage-b", "language-a language-b x",
+    "a b language-c language-d e language-f",
 ];
 pub const COLORS: &[&str] = &["#ff0000", "red", "#FFF", "", "rgb(1,2,3)", "javascript:x"];
 pub const MISC_VALUES: &[&str] = &["v", "", "a b", "1", "-3", "_blank", "x\"y", "é", "http://x/", "mxc://s/m", "javascript:alert(1)"];
